@@ -5,8 +5,8 @@ Library side (zbus/src/object_server, K1; K3 in the thorough tier):
                fdo::Error::UnknownObject, `None` from Node::interface_lock becomes UnknownInterface, and the
                failure continuation never reaches the interface call / task spawn.
                dispatch_call_to_iface: Interface::call → NotFound ⇒ every path to return builds UnknownMethod
-               (returned as Err); RequiresMut ⇒ every path goes through Interface::call_mut (and call_mut runs
-               only on that edge); Async ⇒ the carried future is awaited and call_mut is not reached;
+               (returned as Err); RequiresMut ⇒ every path goes through Interface::call_mut; Async ⇒ the carried
+               future is awaited and call_mut is not reached;
                Interface::call_mut → NotFound/RequiresMut ⇒ UnknownMethod, Async ⇒ awaited.
   D-ERR-REPLY  every call site of dispatch_method_call_try / dispatch_call_to_iface either returns the awaited
                result unchanged or switches on it and answers the Err arm exactly once with
@@ -14,8 +14,9 @@ Library side (zbus/src/object_server, K1; K3 in the thorough tier):
   D-FLAG       every Connection::reply* call on the dispatch path (call-graph closure of
                ObjectServer::dispatch_call + DispatchResult::new_async, generated code excluded) is dominated by
                the false edge of a `flags().contains(Flags::NoReplyExpected)` test (R-CTRL).
-Generated code (#[interface] expansions: fdo interfaces in K1, the fixtures of zbus/tests and of the unit
-tests in K4) — one instance per method arm, keyed by the handler it calls:
+Generated code (#[interface] expansions: the fdo interfaces in K1 in both tiers; additionally the fixtures of
+zbus/tests and of the unit tests, K4, in the thorough tier or with ZCHECK_K4=1 — K4 costs 95-160 s to extract) —
+one instance per method arm, keyed by the handler it calls:
   G-ROUTE      `call`/`call_mut` are a string match whose arms return Async or RequiresMut and whose `_` arm
                returns NotFound; the member names `call` answers RequiresMut for = the names `call_mut` matches;
                no name is matched twice; every Async arm boxes a coroutine that calls exactly one handler on the
@@ -30,6 +31,8 @@ tests in K4) — one instance per method arm, keyed by the handler it calls:
                is Message::header() of the dispatched message.
   G-DECODE     when the arm decodes arguments (Body::deserialize) the Err arm replies exactly once with an
                error derived from the decode error and never reaches the handler.
+               (G-FLAG-EARLY and G-ARGS-NAME are one aggregated instance each because every site comes from the same
+               macro template, zbus_macros/src/iface.rs get_args_from_inputs; both are violated on the unchanged tree.)
   G-ARGS-NAME  (one aggregated instance) the error replied on a decode failure is fdo::Error::InvalidArgs:
                built directly, or produced by a conversion whose arm for zbus::Error::Variant builds InvalidArgs.
   G-FLAG-EARLY (one aggregated instance) the replies sent before the handler runs (decode failure, missing
@@ -79,7 +82,6 @@ def edge_dominates(body, sb, target, blk):
 def check_table_try(ctx, f, tag):
     body = ctx.one([b for b in coroutines_of(f, TRY, "zbus") if b.d.get("parent") == TRY or b.id == TRY + "::{closure#0}"],
                    tag + "coroutine of dispatch_method_call_try")
-    fam = [b for b in f.children.get(TRY, []) if b.crate == "zbus"]
     sinks = {c.b for c in mir.calls(body) if c.is_(TO_IFACE, "Executor::<'_>::spawn", "Executor::spawn")}
     ctx.floor("D-TABLE", tag + "dispatch sinks (interface call / spawn) in dispatch_method_call_try", len(sinks), 1)
     want = {NODE_GET_CHILD: "UnknownObject", NODE_IFACE_LOCK: "UnknownInterface"}
@@ -109,7 +111,6 @@ def check_table_try(ctx, f, tag):
             ctx.ob("D-TABLE", tag + "try:%s-failure-leaves" % short(callee), okp, detail, nh.where)
     for callee, variant in want.items():
         ctx.floor("D-TABLE", tag + "None-handlers on %s in dispatch_method_call_try" % short(callee), seen.get(callee, 0), 1)
-    return body, fam
 
 
 def check_table_to_iface(ctx, f, tag):
@@ -186,9 +187,6 @@ def check_table_to_iface(ctx, f, tag):
             ok = no_return_avoiding(tgt("RequiresMut"), {c_mut.b})
             ctx.ob("D-TABLE", tag + "iface:call:RequiresMut->call_mut", ok,
                    "RequiresMut: every path to return goes through Interface::call_mut" if ok else "RequiresMut can return without trying call_mut", site)
-            ok = edge_dominates(body, sb, tgt("RequiresMut"), c_mut.b)
-            ctx.ob("D-TABLE", tag + "iface:call_mut-only-after-RequiresMut", ok,
-                   "Interface::call_mut runs only on the RequiresMut edge" if ok else "Interface::call_mut is reachable without a RequiresMut result", c_mut.where)
         else:
             for n in ("NotFound", "RequiresMut"):
                 ok = no_return_avoiding(tgt(n), um)
@@ -224,10 +222,17 @@ def check_err_reply(ctx, f, tag):
                     continue
                 sb, pl, okt, errt = sws[0]
                 w = L.weights(replies)
-                r_err = L.count_range(b, errt, w) if errt is not None else None
-                r_ok = L.count_range(b, okt, w) if okt is not None else (0, 0)
+                # a call flagged NoReplyExpected is not answered at all: paths over the flag's true edge are
+                # counted separately (must carry no reply), all others must carry exactly one
+                fts = [(fsb, ftt) for fsb, fc, ftt, fft, hdr_ok in L.flag_tests(f, b) if hdr_ok and ftt is not None]
+                r_err = L.count_range(b, errt, w, avoid_edges=fts) if errt is not None else None
                 ctx.ob("D-ERR-REPLY", key + ":err-answered-once", r_err == (1, 1),
-                       "replies on paths from the Err arm to return: %s" % (r_err,), c.where)
+                       "replies on paths from the Err arm to return%s: %s" % (" (not flagged NoReplyExpected)" if fts else "", r_err,), c.where)
+                for fsb, ftt in fts:
+                    r_flag = L.count_range(b, ftt, w)
+                    ctx.ob("D-ERR-REPLY", key + ":flagged-not-answered", r_flag is None or r_flag[1] == 0,
+                           "replies on the NoReplyExpected edge: %s" % (r_flag,), c.where)
+                r_ok = L.count_range(b, okt, w) if okt is not None else (0, 0)
                 ctx.ob("D-ERR-REPLY", key + ":ok-not-answered", r_ok is None or r_ok[1] == 0,
                        "replies on paths from the Ok arm to return: %s" % (r_ok,), c.where)
                 for r in replies:
@@ -454,7 +459,7 @@ def check_dispatcher(ctx, it, name, agg, used):
     return n_async, mut_names, all_names
 
 
-def generated(ctx, its):
+def generated(ctx, its, full=True):
     agg = Agg()
     n_if = 0
     for it in its:
@@ -466,12 +471,13 @@ def generated(ctx, its):
             continue
         n_if += 1
         used = {}
-        a1, m1, t1 = check_dispatcher(ctx, it, "call", agg, used)
-        a2, m2, t2 = check_dispatcher(ctx, it, "call_mut", agg, used)
+        _, m1, _ = check_dispatcher(ctx, it, "call", agg, used)
+        _, _, t2 = check_dispatcher(ctx, it, "call_mut", agg, used)
         ctx.ob("G-ROUTE", it.key + ":RequiresMut-names=call_mut-names", m1 == t2,
                "call answers RequiresMut for %s; call_mut matches %s" % (sorted(map(str, m1)), sorted(map(str, t2))), it.where)
-    ctx.floor("G-ROUTE", "generated Interface impls analysed", n_if, 4)
-    ctx.floor("G-COUNT", "generated method arms analysed", agg.arms, 10)
+    # K1: Introspectable, ObjectManager, Peer, Properties = 4 impls / 7 method arms; K4 adds MyIface (22 methods) ...
+    ctx.floor("G-ROUTE", "generated Interface impls analysed", n_if, 10 if full else 4)
+    ctx.floor("G-COUNT", "generated method arms analysed", agg.arms, 29 if full else 7)
     # ---- aggregated instances (one macro template each)
     bad = [d for d in agg.decode_sites if not d[1]]
     ctx.floor("G-ARGS-NAME", "decode-failure replies", len(agg.decode_sites), 3)
@@ -505,10 +511,14 @@ def run(ctx):
     ctx.not_decided = ("that an arm's member name is the name intended for its handler (macro naming convention); "
                        "interfaces not compiled in the repository; hand-written Interface impls; behaviour of Connection::send.")
     ctx.assumptions.append("Body::deserialize reports failures as zbus::Error::Variant (the arm inspected by G-ARGS-NAME)")
-    L.prefetch(ctx, ["K1", "K4"])
+    cfgs = L.generated_configs(ctx)
+    L.prefetch(ctx, cfgs + (["K3"] if ctx.tier == "thorough" else []))
     f1 = ctx.facts("K1")
     library(ctx, f1, "")
     if ctx.tier == "thorough":
         library(ctx, ctx.facts("K3"), "K3:")
-    its = L.interfaces(ctx, ["K1", "K4"])
-    generated(ctx, its)
+    its = L.interfaces(ctx, cfgs)
+    generated(ctx, its, full="K4" in cfgs)
+    if "K4" not in cfgs:
+        ctx.note("quick tier: generated-code rules ran on the library's own fdo interfaces only (K1); the test "
+                 "fixtures (K4) are analysed in the thorough tier or with ZCHECK_K4=1")
